@@ -106,19 +106,30 @@ int main(void)
                     'lsearch_step_t::interpolate returns a finite value or else the bisection point 0.5*(u.t+v.t) for every mode; bisection and the (t, f, g) constructor equal their definitions',
                     'More-Thuente do_get (+ dcstep): success => the state is the valid evaluation at the returned step, the value / slope read by the convergence test are those of the current trial state, <= max_iterations evaluations, the loop terminates; its convergence exit implies Armijo + strong Wolfe (over the reals)',
                     'CG_DESCENT: interval_t constructor / updateA / updateB / done / converged, make_params, move, updateU, update, bracket and the move_update_and_check_done lambda under protocol contracts (tentative state = evaluation at interval.step_size; done() true => criterion pair evaluated true on the tentative point or give-up; every evaluation but one per updateU / lambda call is paid by the shared budget); do_get composed from these contracts: success => state is the valid evaluation at the returned step, <= 7*max_iterations+1 evaluations, the loops terminate',
+                    'interpolation kernels, real bodies over the reals (interp/, double treated as real): lsearch_step_t::cubic returns a stationary point with second derivative >= 0 (the minimiser, N&W p.59) of EVERY cubic that matches both values and both slopes, wherever its two divisions and its sqrt are defined; quadratic returns the stationary point of every quadratic matching (f(u), f\'(u), f(v)) and *convexity <=> its leading coefficient is > 0; secant returns the zero of the affine interpolant of the two slopes; bisection returns the midpoint, between the two steps',
+                    'lsearch_step_t::interpolate SELECTS as documented, in IEEE semantics (lstep_interpolate_select, back end A, ghost-recording kernel stubs called on (u, v)): cubic mode -> the cubic step if finite, else the quadratic step if finite, else the bisection point; quadratic mode -> quadratic if finite, else bisection; any other mode value -> bisection',
+                    'towards "on convex quadratics all succeed" (convexq/, over the reals): on two distinct samples (t, phi, phi\') of phi(t) = a t^2 + b t + c, a > 0, the kernels cubic, quadratic and secant execute no undefined division / sqrt (PROVED from a > 0 and distinct abscissae, not assumed) and return the exact minimiser -b/(2a); with b < 0, 0 < c1 <= 1/2, c2 >= 0 that step is > 0 and satisfies Armijo and strong Wolfe (hence Wolfe); hence interpolate in cubic / quadratic mode does. It does NOT hold for bisection (witness checked) and not for c1 > 1/2 (witness checked: the exact minimiser violates Armijo)',
+                    'More-Thuente step kernel dcstep (real body, its cubic / quadratic / secant calls inlined mechanically) equals MINPACK-2 dcstep over the reals (mt/dcstep, reference transcribed from the Fortran): the four cases and their choice rules between the cubic and the quadratic / secant step, the case-3 rule (cubic step only if it lies beyond stp, else stpmax / stpmin; closer one + safeguard stp + delta*(sty-stp) when bracketed; farther one clamped to [stpmin, stpmax] otherwise) for a positive and for a negative discriminant, case 4, the bracket update, brackt\' = brackt or case 1 or case 2, the frame; the divisions / sqrt the code executes are defined wherever the reference\'s are. Stated deviations: delta is a parameter (MINPACK: 0.66), no overflow scaling inside the sqrt, discriminant exactly 0 in case 3 (the code may keep the cubic step where MINPACK falls back to the bound: witness checked), no final clamp in dcstep (that is MINPACK-1 cstep; MINPACK-2 and the code clamp in the caller)',
+                    'More-Thuente do_get against MINPACK-2 dcsrch, one arbitrary iteration of the real loop body over the reals (mt/do_get): the START block; stage\' = 2 iff stage = 2 or (psi(stp) <= 0 and phi\'(stp) >= 0) with psi(t) = phi(t) - phi(0) - c1 t phi\'(0) (the code\'s `f <= ftest && g >= 0` IS that condition: an independently seeded change that drops the slope conjunct, seed C07-1, is refuted by mt/do_get/stage_at_interpolation); dcstep is called exactly once per continuing iteration, on the modified function (f - stp*gtest, g - gtest, ...) exactly when stage\' = 1, psi(stp) > 0 and f <= fx, on phi otherwise, with [stmin, stmax] and delta; the bracket values are mapped back afterwards; bisection when the bracket did not shrink by 0.66, width / width1, stmin / stmax (1.1 / 4 extrapolation), clamp to [stpmin, stpmax], fallback to stx: the evaluated step is the reference\'s. Stated deviations: give-up exits return failure (not a warning with a usable step), `>=` / `<=` for `==` at the bounds, convergence tested first',
+                    'dcstep on a convex quadratic (convexq/dcstep_phi, convexq/dcstep_psi): handed samples of phi, or of the modified function (also a convex quadratic, linear coefficient (1-c1) b), cases 1 and 2 return the exact minimiser of the sampled quadratic, case 3 returns it unless a bound or the safeguard cuts it, case 4 cannot occur; that step is > 0 and passes the convergence test of More-Thuente (Armijo + strong Wolfe for phi): for samples of phi when c1 <= 1/2, for samples of the modified function for EVERY 0 < c1 < c2 < 1 (phi\' there is c1*b)',
                     'More-Thuente and CG_DESCENT: success => the advertised conditions hold on the returned point -- More-Thuente: Armijo + strong Wolfe as formulas over the value and slope of the returned state (every return site, over the reals); CG_DESCENT: success is interval_t::converged(), i.e. valid state and (Armijo, Wolfe) or (approximate Armijo, approximate Wolfe) evaluated true on the returned state with the returned step (both were refuted before the repairs 297525f / e2bae93, see known_findings.txt)'],
-        'not_decided': ['success on convex quadratics (needs the numerics of interpolation)',
-                        'More-Thuente: positivity of the returned step (the fallback `stp = stx` may hand back the origin; excluding it needs the numerics of dcstep) and which of the two interpolation stages is active (the stage switch only selects the arguments of dcstep: no protocol-level consequence)',
+        'not_decided': ['success on convex quadratics as a statement about the whole searches: decided are the single interpolation steps (exact minimiser, which passes Armijo for c1 <= 1/2 / strong Wolfe; dcstep cases 1-3); NOT decided: that the safeguards around them (clamp to [safeguard*t, (1-safeguard)*t] in backtracking / LeMarechal / Fletcher, extrapolation by tau1 / 3, bisection + [stmin, stmax] + clamp + fallback in More-Thuente, the theta rule and the secant^2 step of CG_DESCENT) leave the exact step alone or converge within max_iterations anyway; for c1 > 1/2 the exact minimiser violates Armijo, so success there needs further iterations',
+                        'dcstep: inputs with dx = 0 (sgnd = dp*(dx/|dx|) is NaN in IEEE: no real-model meaning), inputs where the reference\'s own quantities are undefined (stp = stx, zero denominators), and case 3 with a discriminant of exactly 0 (deviation, see decided)',
+                        'More-Thuente: positivity of the returned step (the fallback `stp = stx` may hand back the origin; excluding it needs the numerics of dcstep)',
                         'CG_DESCENT: positivity of the returned step (secant / theta-combination numerics); its finiteness follows only by composition (success = converged() => valid tentative state at interval.step_size) because do_get is composed over the reals',
                         'finiteness proper: over the reals every value is finite; overflow of 0.5*(u.t+v.t) and NaN bracket ends are outside the real model'],
         'assumptions': ['solver_state_t::update(x) makes the state the single evaluation at x (assumed contract)',
                         'a valid trial state has a finite step: solver_state_t::valid() demands an all-finite point and every coordinate of x0 + t*d is non-finite for a non-finite t (the scalar IEEE fact is proved: ieee_point_lemma; its lifting to Eigen vectors is assumed)',
                         'parameters lie in their registered domains (0<c1<c2<1, 1<=max_iterations<=10000, tau1>2, 0<safeguard<0.5, 0<tau2<tau3<=0.5, 0<delta<1, 0<theta<1, ro>1, 0<gamma<1, epsilon>0)',
-                        'lsearch_step_t::cubic / quadratic / secant return an arbitrary double (havoc); in the protocol targets of back end A lsearch_step_t::interpolate is an arbitrary double as well',
+                        'in the protocol targets of back end A and in steps/, advertised/, mt/do_get the interpolation results (cubic / quadratic / secant / interpolate / dcstep outputs) are arbitrary values (havoc: those claims hold for every interpolation result); what the kernels compute is under interp/, mt/dcstep, lstep_interpolate_select',
                         'IEEE double treated as real in the pred/, steps/ and advertised/ obligations (back end B); std::isfinite is true there; machine epsilon = 2^-52; epsilon0 / epsilon1 are some positive constants',
                         'Eigen dot product is an opaque symmetric real function of its two operands',
                         'back end B uses the contracts of lsearchk_t::update, fletcher zoom, interval_t::done, interval_t::converged, bracket, move_update_and_check_done, make_params and the interval_t constructor in the form proved by back end A (restated as SMT in step_smt.py / adv_smt.py: the correspondence of the two statements is by inspection)',
                         'More-Thuente over the reals: dcstep overwrites its eight by-reference results with arbitrary values (its real body is under the back-end-A target morethuente_do_get)',
+                        'interp/, convexq/, mt/: IEEE double treated as real; std::sqrt is an uninterpreted function with sqrt(x) >= 0 and sqrt(x)^2 = x for x >= 0 (instantiated on the applications that occur, Ackermann congruence between them) and no property for x < 0; a quotient x/d is named by a constant q with `d = 0 or q*d = x` (nothing is known about x/0); every claim about a kernel is conditional on "its divisions / sqrt are defined" unless it proves that',
+                        'mt/dcstep: std::isfinite(x) of a value returned by an interpolation kernel is modelled as "the kernel\'s divisions and sqrt are defined" (IEEE: an undefined operation yields NaN / inf, which propagates to the result except in cancellation corner cases such as x/inf), of any other value as true',
+                        'the reference algorithm (MINPACK-2 dcsrch / dcstep, More & Thuente 1994) is transcribed by hand from the Fortran text into mt_smt.py (reference(), do_get_reference(), do_get_next()) without the overflow scaling s = max(|theta|, |dx|, |dp|); the Fortran constants 0.66d0 and 1.1d0 are the same IEEE doubles as the C++ literals',
+                        'mt/do_get looks at ONE arbitrary iteration from an arbitrary loop-head state with stage in {1, 2} (inductive invariant) and at the prefix; the give-up / convergence exits are not compared with dcsrch beyond what advertised/morethuente_do_get proves',
                         'the ghost records of the approximate predicates (nv_cgd) are not part of the frame of the virtual do_get contract used by lsearchk_t::get (they are specification-only objects)'],
         'trusted': [],
     }
